@@ -126,7 +126,7 @@ def finish_case(r, c):
     c["reads"] = r.choice(READS)
     c["stamps"] = stamps_for(r, n)
     if r.random() < 0.35:
-        c["flavour"] = r.choice(["fortran", "stack", "strided", "aliased"] if c["mode"] == "se3" else ["list", "readonly", "strided"])
+        c["flavour"] = r.choice(["fortran", "stack", "strided", "aliased", "ndarray3", "ndarray3", "tuple", "objarray"] if c["mode"] == "se3" else ["list", "readonly", "strided"])
         if c["flavour"] == "aliased":
             # repeat some poses: slot i shares the matrix object of slot alias[i]
             m = n + r.randint(1, 3)
@@ -168,6 +168,21 @@ def gen_cases(ctx):
                     stamps = [0.0, 0.5] if r.random() < 0.5 else None
                     yield {"kind": "general", "plane": p1, "deg": None, "poses": [pose(quat_rot(r), tvec(r)) for _ in range(2)],
                            "mode": mode, "reads": reads, "stamps": stamps, "calls": [p1, p2] + ([r.choice(PLANES)] if r.random() < 0.3 else [])}
+    # operations between two projections: the second projection must still be refused (also on a deep copy)
+    for op in OPS:
+        for mode in ("se3", "quat"):
+            for st in (True, False):
+                p1, p2 = r.choice(PLANES), r.choice(PLANES)
+                n = r.choice([3, 4, 6])
+                yield {"kind": "general", "plane": p1, "deg": None, "poses": [pose(quat_rot(r), tvec(r)) for _ in range(n)],
+                       "mode": mode, "reads": r.choice(READS), "stamps": [0.1 * i for i in range(n)] if st else None,
+                       "calls": [p1, "op:" + op] + (["op:" + r.choice(OPS)] if r.random() < 0.3 else []) + [p2]}
+    # poses_se3 given as one (n, 4, 4) ndarray / tuple / object array, n up to 33
+    for n in (1, 2, 6, 7, 8, 9, 16, 17, 33):
+        for fl in ("ndarray3", "tuple", "objarray"):
+            plane = r.choice(PLANES)
+            yield {"kind": "general", "plane": plane, "deg": None, "poses": [pose(quat_rot(r), tvec(r)) for _ in range(n)],
+                   "mode": "se3", "flavour": fl, "reads": r.choice(READS), "stamps": None, "calls": [plane, r.choice(PLANES)]}
     # structured sizes (L5)
     for n in (1, 2, 3, 4, 7, 8, 9, 15, 16, 17, 31, 32, 33):
         plane = r.choice(PLANES)
@@ -267,6 +282,14 @@ def build(case):
             lst = [np.asfortranarray(p.copy()) for p in poses]
         elif fl == "stack":                       # views of one (n, 4, 4) base array (how stacked pose files are usually split)
             lst = list(np.array(poses))
+        elif fl == "ndarray3":                    # the (n, 4, 4) array itself as poses_se3 (iteration yields temporary views)
+            lst = np.stack(poses)
+        elif fl == "tuple":
+            lst = tuple(p.copy() for p in poses)
+        elif fl == "objarray":
+            lst = np.empty(len(poses), dtype=object)
+            for i, p_ in enumerate(poses):
+                lst[i] = p_.copy()
         elif fl == "strided":                     # non-contiguous views into a larger array
             big = np.full((len(poses), 8, 9), 7.0)
             big[:, 1::2, 1::2] = np.array(poses)
@@ -304,6 +327,42 @@ def build(case):
     return tr
 
 
+OPS = ("transform_left", "transform_right", "transform_prop", "transform_sim3", "scale", "align", "align_scale", "align_origin",
+       "reduce_to_ids", "downsample", "deepcopy")
+
+
+def apply_op(tr, op, case):
+    """an operation between two projections; returns the object to continue with (the copy for deepcopy)"""
+    import copy
+    from evo.core import lie_algebra as lie
+    T = lie.se3(np.array(rot_about(2, 0.6, 0.8)) @ np.array(rot_about(0, 0.8, -0.6)), np.array([1.0, -2.0, 0.5]))
+    ref = build({**case, "flavour": None, "mode": "se3"})
+    n = tr.num_poses
+    if op == "transform_left":
+        tr.transform(T)
+    elif op == "transform_right":
+        tr.transform(T, right_mul=True)
+    elif op == "transform_prop":
+        tr.transform(T, right_mul=True, propagate=True)
+    elif op == "transform_sim3":
+        tr.transform(lie.sim3(T[:3, :3], T[:3, 3], 2.0))
+    elif op == "scale":
+        tr.scale(2.0)
+    elif op == "align":
+        tr.align(ref)
+    elif op == "align_scale":
+        tr.align(ref, correct_scale=True)
+    elif op == "align_origin":
+        tr.align_origin(ref)
+    elif op == "reduce_to_ids":
+        tr.reduce_to_ids(list(range(0, n, 2)) if n > 1 else [0])
+    elif op == "downsample":
+        tr.downsample(max(1, n // 2))
+    elif op == "deepcopy":
+        return copy.deepcopy(tr)
+    return tr
+
+
 def read_views(tr, reads):
     if reads in ("pos", "both"):
         tr.positions_xyz
@@ -328,6 +387,7 @@ def run_impl_(case):
         read_views(b, reads)
         b.project(P[case["calls"][0]])
         out["after"] = snapshot(b)
+        out["ops"] = []
         try:
             out["evo_check"] = bool(b.check()[0])
         except Exception as e:
@@ -342,6 +402,13 @@ def run_impl_(case):
             except TrajectoryException:
                 out["bad_plane"] = "TrajectoryException"
         for pl in case["calls"]:
+            if pl.startswith("op:"):
+                try:
+                    tr = apply_op(tr, pl[3:], case)
+                    out["ops"].append("ok")
+                except Exception as e:          # e.g. align of fewer than 3 / degenerate poses: recorded, the history goes on
+                    out["ops"].append(f"{type(e).__name__}: {e}")
+                continue
             try:
                 tr.project(P[pl])
                 out["calls"].append("OK")
@@ -359,7 +426,8 @@ def pose12(m):
 def model_lines(case, impl):
     if "crash" in impl or impl["before"]["poses"] is None:
         return []
-    lines = [f"C14 hist {len(case['calls'])} " + " ".join(case["calls"])]
+    planes = [c for c in case["calls"] if not c.startswith("op:")]     # operations in between do not touch the flag in the model
+    lines = [f"C14 hist {len(planes)} " + " ".join(planes)]
     for p in impl["before"]["poses"]:
         lines.append(f"C14 proj {case['plane']} {pose12(p)}")
     return lines
@@ -532,8 +600,11 @@ def oracle(ctx, case, impl):
     if impl["calls"][0] != "OK":
         ctx.fail(case, "first-projection-carried-out", "the first project() was refused", base)
     if any(c != "REFUSED" for c in impl["calls"][1:]):
-        ctx.fail(case, "second-projection-refused", f"calls {case['calls']} → {impl['calls']}", base)
-    if all(c == "REFUSED" for c in impl["calls"][1:]) and not same_snapshot(final, after):
+        ctx.fail(case, "second-projection-refused", f"calls {case['calls']} → projections {impl['calls']}, operations {impl.get('ops')}", base)
+    for op, res in zip([c for c in case["calls"] if c.startswith("op:")], impl.get("ops", [])):
+        ctx.count("branch", "between projections: " + op[3:] + (" (op raised)" if res != "ok" else ""))
+    has_ops = any(c.startswith("op:") for c in case["calls"])
+    if not has_ops and all(c == "REFUSED" for c in impl["calls"][1:]) and not same_snapshot(final, after):
         ctx.fail(case, "second-projection-refused", "a refused project() call changed the object", base)
 
 
@@ -583,7 +654,12 @@ def shrink(case):
                     c[key] = case[key][:i] + case[key][i + 1:]
             yield c
     if len(case["calls"]) > 1:
-        c = dict(case); c["calls"] = case["calls"][:-1]; yield c
+        c = dict(case); c["calls"] = case["calls"][:-1]
+        if not c["calls"][-1].startswith("op:"):
+            yield c
+        for i, x in enumerate(case["calls"]):
+            if x.startswith("op:"):
+                c = dict(case); c["calls"] = case["calls"][:i] + case["calls"][i + 1:]; yield c
     if case["stamps"] is not None:
         c = dict(case); c["stamps"] = None; yield c
     if case["mode"] == "quat":
@@ -602,12 +678,59 @@ def shrink(case):
             yield c
 
 
+CONTAINERS = ("ndarray3", "tuple", "objarray", "stack", "aliased")
+
+
+def stabilise(ctx):
+    """Failures that involve object identities (container flavours) can depend on the allocator state of this long-running
+    process.  For each clause whose smallest failing case is of that kind, keep a failing case that also fails in a *fresh*
+    process (checked with `--replay` in a subprocess), so that the replay file reproduces."""
+    import json, subprocess, sys, os
+    by = {}
+    for case, f in ctx.failures:
+        by.setdefault(f["clause"], []).append((case, f))
+    size = lambda cf: len(json.dumps(cf[0], default=str))
+    keep, unconfirmed, confirmed = [], [], False
+    for clause, lst in by.items():
+        lst.sort(key=size)
+        if lst[0][0].get("flavour") not in CONTAINERS:
+            keep += lst
+            confirmed = True
+            continue
+        cands = lst[:2] + sorted(lst, key=lambda cf: -len(cf[0]["poses"]))[:4]
+        found = None
+        for case, f in cands:
+            tmp = core.VERIF / "evidence" / "replay" / f"tmp-C14-{os.getpid()}.json"
+            tmp.parent.mkdir(parents=True, exist_ok=True)
+            tmp.write_text(json.dumps({"property": "C14", "seed": ctx.seed, "case": case}, default=str))
+            try:
+                rc = subprocess.run([sys.executable, str(core.VERIF / "harness" / "main.py"), "C14", "--replay", str(tmp)],
+                                    capture_output=True, timeout=300).returncode
+            except Exception:
+                rc = None
+            finally:
+                tmp.unlink(missing_ok=True)
+            if rc == 1:
+                found = (case, f)
+                break
+        if found:
+            keep.append(found)
+            confirmed = True
+        else:
+            unconfirmed += lst
+        ctx.notes.setdefault("state_dependent_failures", {})[clause] = "reproduced in a fresh process" if found else "seen only in the long-running process"
+    # clauses seen only in this process are reported only when nothing reproducible was found (they are listed in the notes)
+    ctx.failures = keep if confirmed else keep + unconfirmed
+
+
 def check(ctx):
     lean = core.lean_side(ctx.prop, ctx.tier)
     core.drift(ctx, MODELLED)
     cases = list(gen_cases(ctx))
     evaluate(ctx, cases)
     core.shrink_all(ctx, shrink, evaluate)
+    if ctx.failures:
+        stabilise(ctx)
     return core.finish(ctx, lean, rule=RULE, open_clauses=OPEN,
                        assumptions=["input poses are valid SE(3) matrices with finite entries",
                                     "a 'planar pose' has the exact block structure of a rotation about the plane normal and a zero normal coordinate"],
@@ -616,5 +739,15 @@ def check(ctx):
 
 def replay(ctx, data):
     core.sh("lake build drv_C14", cwd=core.LEAN)
-    evaluate(ctx, [data["case"]])
+    # failures that depend on the allocator state (e.g. object identities of temporary views) need not show on the first run of
+    # a fresh process: repeat the case, with some allocation churn in between, until it fails (at most 40 times)
+    churn = []
+    for k in range(40):
+        sub = core.Ctx(ctx.prop, ctx.tier, ctx.seed)
+        evaluate(sub, [data["case"]])
+        if sub.failures or sub.mismatches or sub.known_seen or k == 39:
+            ctx.failures, ctx.mismatches, ctx.known_seen = sub.failures, sub.mismatches, sub.known_seen
+            break
+        churn.append([np.zeros((4, 4)) for _ in range(k + 1)])
+        del churn[::2]
     return core.finish_replay(ctx)
